@@ -13,7 +13,7 @@ import (
 func init() {
 	register("C18", &ruleSet{
 		run:    runC18,
-		floors: map[string]int{"O1": 6, "O2": 3, "O3": 4, "O4": 1},
+		floors: map[string]int{"O1": 6, "O2": 3, "O3": 4, "O4": 1, "O5": 2},
 		explain: "Decides the structural clauses of the measurement primitives (all numeric clauses - mean during warm-up, hull bounds, variance >= 0, percentile accuracy - are " +
 			"not applicable to a static argument): (O1) Reset is complete: every field that Add/Update can write, followed through owned sub-measurements, is re-initialised by " +
 			"Reset to the value the constructor gives it (a zero constant, the immutable 'initial' field the constructor set from the same argument, or the sub-measurement's own " +
@@ -32,6 +32,7 @@ func runC18(p *Prog, l *Ledger) {
 	l.Rule("O2", "window immutability: no ImmutableSampleWindow method stores through its receiver")
 	l.Rule("O3", "changed-flag polarity: whenever the stored value can differ the flag is true or an old != new comparison; never old == new")
 	l.Rule("O4", "latest value: SingleMeasurement.Add stores exactly its argument")
+	l.Rule("O5", "every sample is folded in: each Add path of an averaging measurement stores a value computed from the sample; a warm-up path also counts it (+1) and adds it to the running sum exactly once")
 	l.NotCovered = []string{"arithmetic mean during warm-up", "exponential average stays within the hull of the samples", "variance >= 0", "percentile accuracy", "flag of the composite types (SimpleMovingVariance, WindowlessMovingPercentile) whose stored value is not a single field"}
 
 	mi := p.coreIface("MeasurementInterface")
@@ -360,6 +361,74 @@ func runC18(p *Prog, l *Ledger) {
 		l.Check(len(bad) == 0 && n > 0, "O3", key, p.FuncPos(target), fmt.Sprintf("%d paths; the flag is true / old != new whenever %s can change", n, valF.Name), "Add's flag does not report that the stored value changed", bad...)
 	}
 
+	// ---- O5 averaging types fold every sample
+	for _, T := range types_ {
+		if !strings.Contains(T.Obj().Name(), "Average") {
+			continue
+		}
+		add := p.Method(T, "Add")
+		if add == nil {
+			continue
+		}
+		target := add
+		EnumPaths(add, 1000, func(pa *Path) bool {
+			rv := pa.ReturnValues()
+			if len(rv) == 2 {
+				if ex, ok := strip(rv[0], false).(*ssa.Extract); ok {
+					if call, ok := ex.Tuple.(*ssa.Call); ok {
+						if c := p.CallOf(call); c.Static != nil && p.InModule(c.Static) {
+							target = c.Static
+						}
+					}
+				}
+			}
+			return true
+		})
+		sample := target.Params[1]
+		var bad []string
+		n := 0
+		EnumPaths(target, 10000, func(pa *Path) bool {
+			if !pa.IsReturn() {
+				return true
+			}
+			n++
+			folded := false
+			counts, sums := 0, 0
+			pa.Each(func(step int, ins ssa.Instruction) bool {
+				if d, ok := p.DeltaOf(ins); ok && types.Identical(d.Field.Type, T) && d.By == 1 {
+					counts++
+				}
+				if st, ok := ins.(*ssa.Store); ok {
+					if fa, ok := st.Addr.(*ssa.FieldAddr); ok {
+						if fr, _, _ := fieldOf(fa); types.Identical(fr.Type, T) && isFloat(structOf(T).Field(fr.Index).Type()) {
+							if c18DerivesFrom(pa, st.Val, sample, step, 8) {
+								folded = true
+							}
+							// running sum: old + sample
+							if bo, ok := strip(st.Val, false).(*ssa.BinOp); ok && bo.Op == token.ADD {
+								f2, _, isF := loadedField(strip(bo.X, false))
+								if isF && sameField(f2, fr) && strip(bo.Y, false) == ssa.Value(sample) {
+									sums++
+								}
+							}
+						}
+					}
+				}
+				return true
+			})
+			if !folded {
+				bad = append(bad, "a path returns without folding the sample into the stored value: "+joinWitness(p.DescribePath(pa)))
+			}
+			if sums > 0 {
+				if sums != 1 || counts != 1 {
+					bad = append(bad, fmt.Sprintf("a warm-up path counts the sample %d times and adds it to the sum %d times (want once each)", counts, sums))
+				}
+			}
+			return len(bad) < 3
+		})
+		l.Check(len(bad) == 0 && n > 0, "O5", p.Key(target)+"/fold", p.FuncPos(target), fmt.Sprintf("%d paths; every sample reaches the stored value", n), "an averaging measurement can silently skip a sample", bad...)
+	}
+
 	// ---- O4
 	if sm := p.Named("measurements", "SingleMeasurement"); sm != nil {
 		add := p.Method(sm, "Add")
@@ -375,4 +444,53 @@ func runC18(p *Prog, l *Ledger) {
 		}
 		l.Check(len(bad) == 0 && n == 1, "O4", p.Key(add), p.FuncPos(add), "stores exactly the sample", "the latest-value measurement does not keep the latest sample", bad...)
 	}
+}
+
+// c18DerivesFrom: v is computed (through arithmetic, conversions, phis resolved on the path, and reloads of fields
+// stored earlier on the path) from target.
+func c18DerivesFrom(pa *Path, v ssa.Value, target ssa.Value, step, depth int) bool {
+	if depth < 0 || v == nil {
+		return false
+	}
+	v = strip(pa.Resolve(v, step), false)
+	if v == target {
+		return true
+	}
+	switch x := v.(type) {
+	case *ssa.Convert:
+		return c18DerivesFrom(pa, x.X, target, step, depth-1)
+	case *ssa.BinOp:
+		return c18DerivesFrom(pa, x.X, target, step, depth-1) || c18DerivesFrom(pa, x.Y, target, step, depth-1)
+	case *ssa.UnOp:
+		if fa, ok := x.X.(*ssa.FieldAddr); ok {
+			// reload of a field: follow the last store to that field on the path before this load
+			fr, _, _ := fieldOf(fa)
+			var last ssa.Value
+			done := false
+			pa.Each(func(s int, ins ssa.Instruction) bool {
+				if ins == ssa.Instruction(x) {
+					done = true
+					return false
+				}
+				if st, ok := ins.(*ssa.Store); ok {
+					if fa2, ok := st.Addr.(*ssa.FieldAddr); ok {
+						if f2, _, _ := fieldOf(fa2); sameField(f2, fr) {
+							last = st.Val
+						}
+					}
+				}
+				return true
+			})
+			if done && last != nil {
+				return c18DerivesFrom(pa, last, target, step, depth-1)
+			}
+		}
+	case *ssa.Call:
+		for _, a := range x.Call.Args {
+			if c18DerivesFrom(pa, a, target, step, depth-1) {
+				return true
+			}
+		}
+	}
+	return false
 }
